@@ -137,3 +137,56 @@ func VP_C14_cp_round() {
 	}
 	zzvp.Assert(zzvp.Implies(vpSetHolds(w0, c0, a), vpSetHolds(pb.weights, pb.card, a)), "the rounded/divided constraint is not implied by the original one")
 }
+
+type vpPBSk struct {
+	lits []int
+	ws   []int
+	d    int
+}
+
+// PB / cardinality skeletons over 4-6 variables (signs symbolic, degree shifted by a symbolic 0/1)
+var vpPBSkeletons = [][]vpPBSk{
+	// 0: pigeon-hole 3/2 with cardinality constraints
+	{{[]int{1, 2}, nil, 1}, {[]int{3, 4}, nil, 1}, {[]int{5, 6}, nil, 1}, {[]int{-1, -3, -5}, nil, 2}, {[]int{-2, -4, -6}, nil, 2}},
+	// 1: weighted constraints sharing variables
+	{{[]int{1, 2, 3}, []int{2, 1, 1}, 2}, {[]int{-1, 3, 4}, []int{2, 2, 1}, 3}, {[]int{-2, -3, -4}, []int{1, 1, 1}, 2}, {[]int{1, -4}, nil, 1}},
+	// 2: parity-like
+	{{[]int{1, 2, 3}, []int{2, 2, 2}, 3}, {[]int{-1, -2, -3}, []int{2, 2, 2}, 3}, {[]int{1, 4}, nil, 1}, {[]int{-4, 2, 5}, []int{1, 1, 2}, 2}},
+}
+
+// VP_C14_pb_skeleton: PB skeletons with symbolic signs, solved with
+// CuttingPlanes (and DetectAtMostOne) symbolic, against brute force; the
+// learned-constraint monitor is active.
+func VP_C14_pb_skeleton() {
+	zzvp.IntMode(true)
+	sk := vpPBSkeletons[zzvp.Choose("skeleton", zzvp.Param("nskel", len(vpPBSkeletons)))]
+	maxSym := zzvp.Param("maxsigns", 8)
+	n, cnt := 0, 0
+	var constrs []PBConstr
+	var refs []vpRef
+	for _, c := range sk {
+		lits := make([]int, len(c.lits))
+		for i, l := range c.lits {
+			if v := vpAbs(l); v > n {
+				n = v
+			}
+			lits[i] = l
+			if cnt < maxSym {
+				lits[i] = zzvp.Ite(zzvp.Bool("flip"), -l, l)
+				cnt++
+			}
+		}
+		ws := c.ws
+		if ws == nil {
+			ws = vpOnes(len(lits))
+		}
+		d := c.d
+		if zzvp.Param("dshift", 0) == 1 {
+			d += zzvp.Choose("dshift", 2)
+		}
+		refs = append(refs, vpRef{vpCopy(lits), vpCopy(ws), 0, d})
+		constrs = append(constrs, GtEq(vpCopy(lits), vpCopy(ws), d))
+	}
+	pb := ParsePBConstrs(constrs)
+	vpSolveCheck(pb, refs, n)
+}
